@@ -104,7 +104,7 @@ class C18(Check):
             labels = [max(l, 0) for l in labels]
         o = stream(rk, "ops")
         w = {"scale_range": 3, "scale_range_ov": 1, "scale_factor": 2, "shift": 2, "scale_factor_ov": 1, "shift_ov": 1, "revert": 3, "shuffle": 2, "mbf": 1, "split_labels": 1,
-             "split_pieces": 2, "split_wl": 1, "remove": 3, "remove_bad": 1, "concat": 2, "concat_list": 1}
+             "split_pieces": 2, "split_wl": 1, "remove": 3, "remove_bad": 1, "concat": 2, "concat_list": 1, "copy": 1}
         for k in list(w):
             w[k] = w[k] * o.choice([0, 1, 1, 2])
         kinds = [k for k, v in w.items() for _ in range(v)] or ["scale_range"]
@@ -229,9 +229,14 @@ class C18(Check):
                     self.sync(ctx, ds, m, k, sig)
                 elif k == "copy":
                     cp = ds.copy()
+                    ctx.probe("copy")
+                    if match_pairs(self.actual_pairs(cp), m.pairs()) is None:
+                        ctx.violate("multiset_preserved", dict(sig, op=k), "copy() does not hold the samples of its source")
+                    self.check_attrs(ctx, ds, cp, m, k, sig)
                     if len(pool) < 6:
-                        # a copy shares the arrays: model it as the same records
-                        pool.append((cp, m))
+                        # the copy starts out sharing the source's arrays; from here on it is a data set of its own (reference model:
+                        # an independent clone) - an operation on one that changes the other shows as other_sets_untouched
+                        pool.append((cp, Model([r.clone() for r in m.recs], m.scaled, m.derived)))
                 elif k == "split_labels":
                     parts = ds.split_labels()
                     tot = []
